@@ -21,6 +21,8 @@ def run_check(prop: str, tier: str, root: str, write: bool = True) -> int:
         return 2
     try:
         repo = Repo(root)
+        from .lib import set_option_attrs
+        set_option_attrs(repo)
         run = Run(prop, tier, repo)
         mod.check(run)
         return finish(run, write=write)
@@ -64,6 +66,8 @@ def main(argv=None):
         try:
             mod = importlib.import_module(f".rules.{prop.lower()}", package=__package__)
             repo = Repo(args.repo)
+            from .lib import set_option_attrs
+            set_option_attrs(repo)
             run = Run(prop, "thorough", repo)
             mod.check(run)
         except AnalysisError as e:
